@@ -6,6 +6,7 @@ use crate::ast::*;
 use crate::output::Digits;
 use crate::types::{BigInt, BigRat, Numeric};
 use chrono_tz::Tz;
+use std::cmp;
 use std::iter::Peekable;
 use std::str::Chars;
 
@@ -791,7 +792,43 @@ pub fn parse_offset(iter: &mut Iter<'_>) -> Option<i64> {
     Some(sign * (i64::from_str(&*hour).unwrap() * 3600 + i64::from_str(&*min).unwrap() * 60))
 }
 
+/// The deepest nesting the parser accepts. Every level of parentheses or
+/// of prefix operators costs about ten stack frames in the parser, and the
+/// same depth again when the expression is evaluated and dropped.
+const MAX_NESTING: usize = 128;
+
+/// Upper bound on how deep the recursive descent can go for the rest of
+/// the input: open parentheses plus the current run of prefix operators.
+fn nesting_depth(iter: &Iter<'_>) -> usize {
+    let mut depth = 0usize;
+    let mut run = 0usize;
+    let mut max = 0usize;
+    for token in iter.clone() {
+        match token {
+            Token::Eof => break,
+            Token::LPar => {
+                depth += 1;
+                run = 0;
+            }
+            Token::RPar => {
+                depth = depth.saturating_sub(1);
+                run = 0;
+            }
+            Token::Plus | Token::Minus => run += 1,
+            _ => run = 0,
+        }
+        max = cmp::max(max, depth + run);
+    }
+    max
+}
+
 pub fn parse_query(iter: &mut Iter<'_>) -> Query {
+    if nesting_depth(iter) > MAX_NESTING {
+        return Query::Error(format!(
+            "Expression is nested more than {} levels deep",
+            MAX_NESTING
+        ));
+    }
     match iter.peek().cloned() {
         Some(Token::Ident(ref s)) if s == "factorize" => {
             iter.next();
